@@ -15,6 +15,7 @@ import (
 	"encoding/pem"
 	"fmt"
 	"math/big"
+	"strings"
 	"time"
 
 	"verifharness/chain"
@@ -295,7 +296,8 @@ func runC15(c *fw.Case) {
 		if p := safeCall("VerifySignature", func() {
 			resp, qerr = k.VerifySignature(sdk.WrapSDKContext(n.Ctx()), &sigtypes.QueryVerifySignatureRequest{ReferenceId: r.refID, TargetAccAddress: r.addr})
 		}); p != nil {
-			c.ViolateD("C20/query-panic/VerifySignature", p.Stack, "VerifySignature panicked on record %s: %s", r.label, short(p.Value, 200))
+			c.ViolateD("C15/verification-panicked/"+r.label, p.Stack, "VerifySignature panicked on record %s: %s", r.label, short(p.Value, 200))
+			c.KeepViolations("C15/")
 			return
 		}
 		got := qerr == nil && resp != nil && resp.Valid == "valid"
@@ -326,6 +328,10 @@ func runC15(c *fw.Case) {
 		if ri%3 == 1 {
 			for key := range links {
 				publish(key, []string{"other-value", "", links[key] + "x"}[c.R.Intn(3)])
+				// other spellings of an existing key are different keys: publishing under them
+				// must not touch the existing link either
+				variants := []string{strings.ToUpper(key), key + " ", " " + key, strings.ToUpper(key[:1]) + key[1:], key + "\x00", key[:len(key)-1]}
+				publish(variants[c.R.Intn(len(variants))], "variant-value")
 				break
 			}
 			checkLinks("after overwrite attempt")
